@@ -127,6 +127,9 @@ func runWriter(c WCase) *vk.Violation {
 			if w.Written() != len(model) || w.Len() != len(model) {
 				return vk.Violf("Writer/count", c, "step %d (%s): Written()=%d Len()=%d, model has %d octets", i, op.K, w.Written(), w.Len(), len(model))
 			}
+			if hx := w.HexString(); hx != vk.Hex(model) {
+				return vk.Violf("Writer/HexString", c, "step %d (%s): HexString() = %s; model %x", i, op.K, hx, model)
+			}
 			bl, err := w.BytesWithLength()
 			want := append(be(4, uint64(len(model)+4)), model...)
 			if err != nil || !bytes.Equal(bl, want) {
@@ -147,6 +150,9 @@ func runWriter(c WCase) *vk.Violation {
 			}
 			if b, err := w.BytesWithLength(); err == nil || b != nil {
 				return vk.Violf("Writer/BytesWithLength-after-error", c, "step %d (%s): BytesWithLength() = %x, %v after a failure", i, op.K, b, err)
+			}
+			if hx := w.HexString(); hx != "" {
+				return vk.Violf("Writer/HexString-after-error", c, "step %d (%s): HexString() = %q after a failure", i, op.K, hx)
 			}
 			if w.Len() != 0 {
 				return vk.Violf("Writer/Len-after-error", c, "step %d (%s): Len() = %d after a failure", i, op.K, w.Len())
@@ -336,6 +342,13 @@ func runReader(c RCase) *vk.Violation {
 			}
 		case "r_rem":
 			got, want = 0, 0
+		case "r_hex":
+			got = r.HexString()
+			if failed {
+				want = ""
+			} else {
+				want = vk.Hex(in[pos:])
+			}
 		}
 		if wantFail {
 			failed = true
@@ -402,7 +415,7 @@ func hexGen(maxLen int, nulFree bool) *rapid.Generator[string] {
 			b = rapid.SliceOfN(rapid.ByteRange(lo, 255), 0, maxLen).Draw(t, "s")
 		} else if cls == 1 && maxLen >= 300 {
 			// around and beyond 255/256 and larger: sizes no PDU field reaches
-			n := rapid.SampledFrom([]int{254, 255, 256, 257, 511, 512, 1000, 4096, 66000}).Draw(t, "biglen")
+			n := rapid.SampledFrom([]int{254, 255, 256, 257, 511, 512, 1000, 4095, 4096, 4097, 32767, 32768, 32769, 65535, 65536, 66000}).Draw(t, "biglen")
 			b = bytes.Repeat([]byte{byte(0x41 + n%20)}, n)
 		} else {
 			b = rapid.SliceOfN(rapid.ByteRange(lo, 255), 0, 12).Draw(t, "s")
@@ -481,7 +494,7 @@ func TestWriterHistories(t *testing.T) {
 }
 
 var readOp = rapid.Custom(func(t *rapid.T) Op {
-	k := rapid.SampledFrom([]string{"r_u8", "r_u16", "r_u32", "r_u64", "r_bytes", "r_cstrn", "r_cstrnw", "r_cstr", "r_nbytes", "r_all", "r_rem"}).Draw(t, "k")
+	k := rapid.SampledFrom([]string{"r_u8", "r_u16", "r_u32", "r_u64", "r_bytes", "r_cstrn", "r_cstrnw", "r_cstr", "r_nbytes", "r_all", "r_rem", "r_hex"}).Draw(t, "k")
 	op := Op{K: k}
 	switch k {
 	case "r_bytes":
